@@ -418,11 +418,32 @@ def holdsStep (before : Registry) (op : Op) (res : Res) (after : Registry) : Boo
        | .ev ev =>
          if firing.isEmpty then ev == .quiet
          else
-           -- the reaction is the configured one of a firing kind that no other firing kind precedes
+           -- the reaction is the configured one of a kind that fires on the item.  WHICH of several firing kinds
+           -- decides (the one that sorts first: `test_least_firing_decides`) is not part of the property's text; it is
+           -- compared with the model by the correspondence, not demanded here
            firing.any (fun k =>
-             firing.all (fun k' => leStr k k') &&
              (match find before k with | some e => ev == reactionEv k e.reaction e.cb | none => false))
        | _ => false)
+
+/-! the reaction table and callback table the program-level model works on, read off a registry -/
+
+
+/-- the reaction table `geterr()` shows for a registry: kinds in sorted order (the order `test` visits them in) -/
+def toState (g : Registry) : State :=
+  ((rkinds g).mergeSort leStr).map (fun k => (k, ((find g k).map (·.reaction)).getD "ignore"))
+
+
+def callsOf (g : Registry) : List (Kind × Nat) := g.map (fun e => (e.kind, e.cb))
+
+
+/-- the seven `register` calls at the bottom of biom/err.py, in that order, with their default reactions -/
+def moduleOps : List Op :=
+  [.register "empty" "ignore" 0, .register "obssize" "raise" 0, .register "sampsize" "raise" 0,
+   .register "obsdup" "raise" 0, .register "sampdup" "raise" 0, .register "obsmdsize" "raise" 0,
+   .register "sampmdsize" "raise" 0]
+
+
+def moduleRegistry : Registry := (run [] moduleOps).1
 
 end Reg
 
@@ -497,6 +518,14 @@ def handleReg (steps : List Json) : R Json := do
 def handle (req : Json) : R Json := do
   if let some fj := optFld req "facts" then
     return Json.mkObj [("firing", strsToJson (firing (← asFacts fj)))]
+  if let some mj := optFld req "module_defaults" then
+    -- {"order": registration order of the kinds, "state": [[kind, reaction]…] sorted by kind} of a fresh interpreter
+    let order ← listF asStr mj "order"
+    let st ← asKw (← fld mj "state")
+    let mo := Reg.rkinds Reg.moduleRegistry
+    let ms := Reg.toState Reg.moduleRegistry
+    return Json.mkObj [("agree", .bool (order == mo && st == ms)), ("holds", .bool true),
+      ("model", Json.mkObj [("order", strsToJson mo), ("state", kwToJson ms)])]
   if let some rj := optFld req "reg" then
     return (← handleReg (← asArr rj))
   let prog ← asProg (← fld req "prog")
